@@ -70,6 +70,8 @@ type Case struct {
 	t    *Node
 	val  *Node
 	modC *Node
+	// the specification's list of selected locations has a repeated entry
+	repeated bool
 }
 
 func (c *Case) prepare() error {
@@ -166,6 +168,49 @@ func errClass(msg string) string {
 	return "other(" + msg + ")"
 }
 
+// depth of a Go value, cut off at lim (a mutation can tie a container value into itself)
+func depthOver(v any, lim int) bool {
+	if lim < 0 {
+		return true
+	}
+	switch t := v.(type) {
+	case []any:
+		for _, x := range t {
+			if depthOver(x, lim-1) {
+				return true
+			}
+		}
+	case gen.Array:
+		for _, x := range t {
+			if depthOver(x, lim-1) {
+				return true
+			}
+		}
+	case map[string]any:
+		for _, x := range t {
+			if depthOver(x, lim-1) {
+				return true
+			}
+		}
+	case gen.Object:
+		for _, x := range t {
+			if depthOver(x, lim-1) {
+				return true
+			}
+		}
+	}
+	return false
+}
+
+// renderSafe is lib.Render, except that a value nested deeper than any tree of the streams (a cycle) is
+// written as the string "CYCLE"
+func renderSafe(v any) string {
+	if depthOver(v, 40) {
+		return "S(" + lib.HexF([]byte("CYCLE")) + ")"
+	}
+	return lib.Render(v)
+}
+
 // modifier builds the modifier function of the case for simple or gen data.
 func (c *Case) modifier(genData bool) func(any) (any, bool) {
 	switch c.Mod[0] {
@@ -228,7 +273,7 @@ func runImpl(c *Case, genData, must bool) (o outcome) {
 					o.class = errClass(o.msg)
 				}
 			}
-			o.after = lib.Render(data)
+			o.after = renderSafe(data)
 		}
 	}()
 	var err error
@@ -294,14 +339,14 @@ func runImpl(c *Case, genData, must bool) (o outcome) {
 		o.kind = "err"
 		o.msg = err.Error()
 		o.class = errClass(o.msg)
-		o.after = lib.Render(data)
+		o.after = renderSafe(data)
 		return
 	}
 	o.kind = "ok"
 	if returned {
-		o.after = lib.Render(result)
+		o.after = renderSafe(result)
 	} else {
-		o.after = lib.Render(data)
+		o.after = renderSafe(data)
 	}
 	return
 }
@@ -359,7 +404,7 @@ func (c *Case) finding(kind, class, what string, extra map[string]any) {
 }
 
 // the deviation flags of the model (Dev in Model.lean) and the known finding each stands for
-const allFlags = "iezsuonfrd"
+const allFlags = "iezsuonfr"
 
 var flagID = map[byte]string{
 	'i': "C13-slice-inclusive",
@@ -371,8 +416,12 @@ var flagID = map[byte]string{
 	'n': "C13-gen-modify-null",
 	'f': "C13-filter-map-null",
 	'r': "C13-modify-root-scalar",
-	'd': "C13-repeated-member",
 }
+
+// a path that selects the same location more than once (a union that lists a member twice, two descents):
+// the mutators work once per occurrence. Decided by: the specification's list of selected locations has a
+// repeated entry and the model reproduces the code.
+const repeatedID = "C13-repeated-location"
 
 // curFlags is Dev.current of the model: every flag, minus VERIF_FIXED=<letters> (to try the harness against
 // a tree patched with a proposed fix).
@@ -433,46 +482,66 @@ func (w *worker) accepted(c *Case, clause, out, other string) (bool, error) {
 }
 
 // explain decides whether a violation (clause) seen on simple or gen data is a known deviation: the flags
-// whose removal changes the model's answer are the candidates; switching off one of them, or all of them,
-// must give an answer the specification accepts.
+// whose removal changes the model's answer are the candidates; switching off one of them — or, failing
+// that, the candidates together with the flags that matter once those are off — must give an answer the
+// specification accepts.
 func (w *worker) explain(c *Case, clause string, genData bool, dw string) (string, string, error) {
-	reqs := []string{c.modelReq(genData, curFlags, dw)}
-	for i := 0; i < len(curFlags); i++ {
-		reqs = append(reqs, c.modelReq(genData, minus(curFlags, string(curFlags[i])), dw))
-	}
-	ans, err := w.ask(reqs)
-	if err != nil {
-		return "", "", err
-	}
-	involved := ""
-	for i := 0; i < len(curFlags) && curFlags != "-"; i++ {
-		if ans[i+1] != ans[0] {
-			involved += string(curFlags[i])
-		}
-	}
-	if involved == "" {
+	if curFlags == "-" {
 		return "", "", nil
 	}
-	simpleOf := func(dev string) (string, error) {
-		if clause != "simple-gen" {
-			return "", nil
-		}
-		a, err := w.ask([]string{c.modelReq(false, dev, dw)})
+	modelOf := func(dev string) (string, error) {
+		a, err := w.ask([]string{c.modelReq(genData, dev, dw)})
 		if err != nil {
 			return "", err
 		}
 		return a[0], nil
 	}
-	for i := 0; i < len(curFlags); i++ {
-		f := curFlags[i]
-		if !strings.ContainsRune(involved, rune(f)) {
-			continue
+	acceptedAt := func(dev, out string) (bool, error) {
+		other := ""
+		if clause == "simple-gen" {
+			a, err := w.ask([]string{c.modelReq(false, dev, dw)})
+			if err != nil {
+				return false, err
+			}
+			other = a[0]
 		}
-		other, err := simpleOf(minus(curFlags, string(f)))
+		return w.accepted(c, clause, out, other)
+	}
+	// the flags whose removal from `base` changes the model's answer, with those answers
+	sensitive := func(base string) (string, map[byte]string, error) {
+		var reqs []string
+		reqs = append(reqs, c.modelReq(genData, base, dw))
+		for i := 0; i < len(base); i++ {
+			reqs = append(reqs, c.modelReq(genData, minus(base, string(base[i])), dw))
+		}
+		ans, err := w.ask(reqs)
 		if err != nil {
-			return "", "", err
+			return "", nil, err
 		}
-		ok, err := w.accepted(c, clause, ans[i+1], other)
+		inv := ""
+		outs := map[byte]string{}
+		for i := 0; i < len(base); i++ {
+			if ans[i+1] != ans[0] {
+				inv += string(base[i])
+				outs[base[i]] = ans[i+1]
+			}
+		}
+		return inv, outs, nil
+	}
+	involved, outs, err := sensitive(curFlags)
+	if err != nil {
+		return "", "", err
+	}
+	if involved == "" {
+		return "", "", nil
+	}
+	// the general reading of slices (i) is tried last: with it off the other slice flags do not matter
+	if strings.Contains(involved, "i") {
+		involved = strings.ReplaceAll(involved, "i", "") + "i"
+	}
+	for i := 0; i < len(involved); i++ {
+		f := involved[i]
+		ok, err := acceptedAt(minus(curFlags, string(f)), outs[f])
 		if err != nil {
 			return "", "", err
 		}
@@ -480,23 +549,31 @@ func (w *worker) explain(c *Case, clause string, genData bool, dw string) (strin
 			return flagID[f], "flags=" + string(f), nil
 		}
 	}
-	if len(involved) > 1 {
-		dev := minus(curFlags, involved)
-		a, err := w.ask([]string{c.modelReq(genData, dev, dw)})
+	off := involved
+	for round := 0; round < len(curFlags); round++ {
+		base := minus(curFlags, off)
+		out, err := modelOf(base)
 		if err != nil {
 			return "", "", err
 		}
-		other, err := simpleOf(dev)
-		if err != nil {
-			return "", "", err
-		}
-		ok, err := w.accepted(c, clause, a[0], other)
+		ok, err := acceptedAt(base, out)
 		if err != nil {
 			return "", "", err
 		}
 		if ok {
-			return flagID[involved[0]], "flags=" + involved, nil
+			return flagID[off[0]], "flags=" + off, nil
 		}
+		if base == "-" {
+			break
+		}
+		more, _, err := sensitive(base)
+		if err != nil {
+			return "", "", err
+		}
+		if more == "" {
+			break
+		}
+		off += more
 	}
 	return "", "", nil
 }
@@ -508,6 +585,9 @@ func (w *worker) problem(c *Case, clause, what string, genData, tied bool, dw st
 		id, flags, err := w.explain(c, clause, genData, dw)
 		if err != nil {
 			return err
+		}
+		if id == "" && c.repeated && clause != "panic" && clause != "simple-gen" {
+			id, flags = repeatedID, "repeated-location"
 		}
 		if id != "" {
 			if extra == nil {
@@ -586,36 +666,112 @@ func (c *Case) orderMatters() bool {
 	return len(c.t.wideObjects(nil)) > 0 && (c.P.has('w') || c.P.has('d') || c.P.has('f'))
 }
 
-// tie: the model (in the sorted member order, else in another order) gives what the code gave
+// tie: the model (in the sorted member order, else in another order) gives what the code gave. The orders
+// tried: the members that lead to a changed location first (a One form stops at its first hit, an error
+// strikes after the edits made before it), then a seeded sample of orders.
 func (w *worker) tie(c *Case, genData bool, impl outcome, first string) (bool, string, string, error) {
 	want := impl.String()
 	if first == want {
 		return true, c.t.wire(nil), first, nil
 	}
-	if c.orderMatters() {
-		ords := orders(c.t, 96)
-		for s := 1; s < len(ords); s += 32 {
-			e := s + 32
-			if e > len(ords) {
-				e = len(ords)
+	if !c.orderMatters() {
+		return false, c.t.wire(nil), first, nil
+	}
+	var ords []map[*Node][]int
+	if after, err := nodeOfText(impl.after); err == nil {
+		var diffs [][]step
+		diffLocs(c.t, after, nil, &diffs)
+		ords = append(ords, changedFirst(c.t, diffs))
+	}
+	r := lib.NewRng(*seed ^ hashString(c.key()))
+	objs := c.t.wideObjects(nil)
+	for i := 0; i < 160; i++ {
+		m := map[*Node][]int{}
+		for _, o := range objs {
+			p := make([]int, len(o.Kids))
+			for j := range p {
+				p[j] = j
 			}
-			var reqs []string
-			for _, o := range ords[s:e] {
-				reqs = append(reqs, c.modelReq(genData, curFlags, c.t.wire(o)))
+			for j := len(p) - 1; j > 0; j-- {
+				k := r.Intn(j + 1)
+				p[j], p[k] = p[k], p[j]
 			}
-			ans, err := w.ask(reqs)
-			if err != nil {
-				return false, "", "", err
+			m[o] = p
+		}
+		ords = append(ords, m)
+	}
+	unmodelled := false
+	for s := 0; s < len(ords); s += 32 {
+		e := s + 32
+		if e > len(ords) {
+			e = len(ords)
+		}
+		var reqs []string
+		for _, o := range ords[s:e] {
+			reqs = append(reqs, c.modelReq(genData, curFlags, c.t.wire(o)))
+		}
+		ans, err := w.ask(reqs)
+		if err != nil {
+			return false, "", "", err
+		}
+		for i, a := range ans {
+			if a == want {
+				rep.Count("tie.other_member_order", 1)
+				return true, c.t.wire(ords[s+i]), a, nil
 			}
-			for i, a := range ans {
-				if a == want {
-					rep.Count("tie.other_member_order", 1)
-					return true, c.t.wire(ords[s+i]), a, nil
-				}
+			if a == "unmodelled" {
+				unmodelled = true
 			}
 		}
 	}
+	if unmodelled {
+		rep.Count("model.unmodelled_in_some_order", 1)
+		return true, c.t.wire(nil), "unmodelled", nil
+	}
 	return false, c.t.wire(nil), first, nil
+}
+
+func hashString(s string) uint64 {
+	h := uint64(1469598103934665603)
+	for i := 0; i < len(s); i++ {
+		h = (h ^ uint64(s[i])) * 1099511628211
+	}
+	return h
+}
+
+// changedFirst orders the members of every wide object: those on the way to a changed location first.
+func changedFirst(t *Node, diffs [][]step) map[*Node][]int {
+	m := map[*Node][]int{}
+	var walk func(n *Node, at []step)
+	walk = func(n *Node, at []step) {
+		if n.Kind == 'o' && len(n.Kids) > 1 {
+			var first, rest []int
+			for i, k := range n.Keys {
+				p := append(append([]step{}, at...), step{key: k, isK: true})
+				hit := false
+				for _, d := range diffs {
+					if isPrefix(p, d) || isPrefix(d, p) {
+						hit = true
+					}
+				}
+				if hit {
+					first = append(first, i)
+				} else {
+					rest = append(rest, i)
+				}
+			}
+			m[n] = append(first, rest...)
+		}
+		for i, k := range n.Kids {
+			if n.Kind == 'o' {
+				walk(k, append(append([]step{}, at...), step{key: n.Keys[i], isK: true}))
+			} else {
+				walk(k, append(append([]step{}, at...), step{idx: i}))
+			}
+		}
+	}
+	walk(t, nil)
+	return m
 }
 
 func (w *worker) run(c *Case) error {
@@ -648,6 +804,15 @@ func (w *worker) run(c *Case) error {
 	spec := strings.Fields(ans[2])
 	if len(spec) != 3 {
 		return fmt.Errorf("bad spec answer %q", ans[2])
+	}
+	{
+		seen := map[string]bool{}
+		for _, l := range strings.Split(spec[0], ";") {
+			if seen[l] {
+				c.repeated = true
+			}
+			seen[l] = true
+		}
 	}
 	var afterNodes []*Node
 	for g := 0; g < 2; g++ {
@@ -711,7 +876,7 @@ func (w *worker) run(c *Case) error {
 		}
 		// the Must form panics exactly when the plain form reports an error (or panics), same data afterwards
 		if (must[g].kind != "ok") != (impl[g].kind != "ok") || must[g].after != impl[g].after {
-			if !(c.orderMatters() && (c.One || impl[g].kind != "ok")) {
+			if !(c.orderMatters() && (c.One || impl[g].kind != "ok" || must[g].kind != "ok" || c.P.has('d'))) {
 				c.finding("violation", "must-form", "the Must form and the plain form differ",
 					map[string]any{"gen": genData, "plain": impl[g].String(), "must": must[g].String(), "must_msg": must[g].msg})
 			}
@@ -982,6 +1147,21 @@ func produce(emit func(Case)) {
 		c.Src = src
 		if c.t != nil && c.Data == "" {
 			c.Data = c.t.canon()
+		}
+		// Set stores the new value by reference. A path with two descents visits what it has stored again
+		// (known finding C13-repeated-location); with a container value the value then ends up inside
+		// itself and Set does not return (`$....*` with {"z":1}): such calls are not run.
+		if c.Op == "set" && (strings.HasPrefix(c.Val, "[") || strings.HasPrefix(c.Val, "{")) {
+			nd := 0
+			for _, f := range c.P {
+				if f.Kind == 'd' {
+					nd++
+				}
+			}
+			if nd >= 2 {
+				c.Val = "I(9)"
+				rep.Count("stream.container_value_with_two_descents_replaced", 1)
+			}
 		}
 		k := c.key()
 		if seen[k] {
